@@ -7,6 +7,7 @@ import (
 	"fmt"
 	"os"
 	"strconv"
+	"sync"
 )
 
 // M is a JSON object.
@@ -42,7 +43,8 @@ func ReadCases(path string) []M {
 
 // W writes ndjson.
 type W struct {
-	f *os.File
+	mu sync.Mutex
+	f  *os.File
 	b *bufio.Writer
 	N int
 }
@@ -60,6 +62,8 @@ func (w *W) Emit(m M) {
 	if err != nil {
 		panic(err)
 	}
+	w.mu.Lock()
+	defer w.mu.Unlock()
 	w.b.Write(b)
 	w.b.WriteByte('\n')
 	w.N++
